@@ -124,6 +124,10 @@ func (ci *crdIpam) handleFIPUnassign(obj interface{}) error {
 	if !ok {
 		return fmt.Errorf("%s already been released", ipStr)
 	}
+	if _, reserved := allocated.Labels[constant.ReserveFIPLabel]; !reserved {
+		// a late delete event of a reservation must not release an ip which has been allocated to a pod since
+		return fmt.Errorf("%s is allocated to %s, not reserved", ipStr, allocated.Key)
+	}
 	ci.syncCacheAfterDel(allocated)
 	glog.Infof("released reserved ip %s", ipStr)
 	return nil
